@@ -85,3 +85,23 @@ Example C04_examples :
   keys_eqb (row_key false [VNull]) (row_key false [VTern TU]) = true /\
   group_keys [[KInt 1]; [KInt 2]; [KInt 1]; [KNull]] = [[0; 2]; [1]; [3]]%nat.
 Proof. vm_compute. repeat split. Qed.
+
+(* the rows handed to the aggregates of a bucket - whatever the aggregate: COUNT .. MAX, MEDIAN, STDEV / VAR, LISTAGG,
+   JSON_AGG, a user-defined one - are the rows at the positions of that bucket, in row order; the positions are
+   what the correspondence observes through LISTAGG of a row number *)
+Theorem C04_aggregates_get_the_rows_of_their_bucket : forall strict keys rows,
+  group_rows strict keys rows = (do idx <- bucket_idx strict keys rows; Ok (map (pick rows) idx)).
+Proof. exact group_rows_by_positions. Qed.
+Print Assumptions C04_aggregates_get_the_rows_of_their_bucket.
+
+(* the whole statement SELECT items FROM src [WHERE c] GROUP BY keys: the rows of the source, filtered, split into
+   the buckets of the keys (theorems above), and one output row per bucket, in the order of the buckets, whose
+   items - key columns and aggregates of any kind - are evaluated over exactly the rows of that bucket *)
+Theorem C04_group_by_is_source_filter_buckets_items : forall strict src wh keys items,
+  eval_query strict (Q (BSelect src wh (Some keys) None items false) [] None None) =
+  (do rows <- eval_source strict src;
+   do kept <- (match wh with None => Ok rows | Some c => filter_rows c rows end);
+   do gs <- group_rows strict keys kept;
+   mapM (fun g => mapM (eval_item strict g) items) gs).
+Proof. exact group_by_pipeline. Qed.
+Print Assumptions C04_group_by_is_source_filter_buckets_items.
